@@ -74,6 +74,20 @@ Theorem C17_exogenized_value_final : forall m pl pre t (e : eqn (RA m)) post (d0
 Proof. exact exogenized_value_final. Qed.
 Print Assumptions C17_exogenized_value_final.
 
+(* ... so that at the end the plan transform of the exogenized variable (x, log x, x - x[shift], log x - log x[shift],
+   x / x[shift], 100*x/x[shift] - 100; flat: zero change) equals the conditioning series of the input databox *)
+Theorem C17_exogenized_hits_target : forall m pl pre t (e : eqn (RA m)) post (d0 : data (RA m)) pp (v : R),
+  rbw m pl (pre ++ (t, e) :: post) -> step_ok m (t, e) ->
+  get_transform (RA m) pl e t = Some pp -> p_shift pp <> 0%Z ->
+  (forall r s', p_row pp = Some r -> In s' pre -> ~ In (r, t) (writes m s')) ->
+  detect (RA m) (Some pp) (e_lhs e) t (run (RA m) pl pre d0) = Some v ->
+  let dN := run (RA m) pl (pre ++ (t, e) :: post) d0 in
+  plan_dom (p_kind pp) (dN (e_lhs e) (t + p_shift pp)%Z) ->
+  plan_of_level m (p_kind pp) (dN (e_lhs e) t) (dN (e_lhs e) (t + p_shift pp)%Z)
+  = plan_target (p_kind pp) (match p_row pp with Some r => d0 r t | None => 0%R end).
+Proof. exact exogenized_hits_target. Qed.
+Print Assumptions C17_exogenized_hits_target.
+
 (* 5. execution_order = "dates_equations" on sequentially ordered models without leads of endogenous rows *)
 Theorem C17_dates_equations : forall m pl cols (eqs : list (eqn (RA m))) (d0 : data (RA m)),
   increasing cols -> (forall e, In e eqs -> eqn_ok m e) ->
